@@ -1212,6 +1212,11 @@ impl Gen<'_> {
                 add.push(*self.rng.pick(&remove));
                 continue
             }
+            if !present.is_empty() && self.rng.chance(15, 100) {
+                // an existing definition once more (its AS may be lost)
+                add.push(*self.rng.pick(&present));
+                continue
+            }
             let idx = if self.rng.chance(12, 100) && self.csrs.len() > n_valid {
                 n_valid + self.rng.below((self.csrs.len() - n_valid) as u64)
                     as usize
@@ -1446,6 +1451,12 @@ fn boundary(b: &Built, csrs: &[Csr]) -> Vec<Req> {
         Req::Bgpsec { add: vec![(c, 0)], remove: vec![(c, 0)] },
         Req::Bgpsec { add: vec![(c, 1), (c, corrupt)], remove: vec![] },
         Req::Bgpsec { add: vec![(c, 1), (c, 2)], remove: vec![(c, 0)] },
+        // the definitions of the preset submitted once more: accepted
+        // while their AS is held, refused once it was lost (nothing that is
+        // not backed by held resources may be created OR KEPT by a request)
+        Req::Bgpsec { add: vec![(65003, 0)], remove: vec![] },
+        Req::Bgpsec { add: vec![(65000, 1)], remove: vec![] },
+        Req::Bgpsec { add: vec![(65000, 1), (65003, 0)], remove: vec![] },
     ]);
     let kid_pfx = vec![base.sub(4, &mut fixed).to_string()];
     out.extend([
